@@ -95,7 +95,7 @@ class DumpSites(Suite):
         S = schema_h.schema()
         G = gen()
         rng = ctx.sub_rng("dump-sites")
-        n = 12 if budget == "quick" else 80
+        n = 25 if budget == "quick" else 400
         out = []
 
         def full(cid):  # every optional member present somewhere along the way, aliases always
